@@ -14,8 +14,8 @@ VERIF = os.path.join(SCRATCH, "verif")
 
 FILES = {
     "src/solvers/preferred_semantics_solver.rs": ["C03", "C01"],
-    "src/solvers/complete_semantics_solver.rs": ["C02", "C07"],
-    "src/solvers/stable_semantics_solver.rs": ["C02", "C03", "C01"],
+    "src/solvers/complete_semantics_solver.rs": ["C02", "C07", "C04"],
+    "src/solvers/stable_semantics_solver.rs": ["C02", "C03", "C01", "C07"],
     "src/solvers/maximal_range_semantics_solvers.rs": ["C02", "C03", "C04"],
     "src/solvers/ideal_semantics_solver.rs": ["C02", "C01", "C04"],
     "src/solvers/maximal_extension_computer.rs": ["C03", "C01", "C18"],
